@@ -4,6 +4,7 @@ from ..core.davsys import Config
 from . import e1common
 
 ASSUME = [
+    "one configuration uploads through the real socket with the body arriving in two pieces 40 ms apart (plain files and calendars): what is acknowledged must be the whole body",
     "one configuration has two workers: a second application object with its own store cache on the same directory (gunicorn workers = 2 in the repository's examples); every write is offered to either worker, and after every request both workers are audited and must show the same",
     "alphabet: 2 names x 4 bodies per calendar, 1 name x 2 cards, one extra collection, POST add-member, restart",
     "the audit after every transition itself issues PROPFIND/GET on every name (reads are part of every step)",
@@ -27,6 +28,9 @@ def configs(tier):
     out.append(Config(front="wsgi", backend="tree", prefix="/", features={"two-workers", "restart", "head"}, label="tree/wsgi+two-workers", **tw))
     if tier == "thorough":
         out.append(Config(front="wsgi", backend="bare", prefix="/", features={"two-workers", "restart", "head", "recreate"}, label="bare/wsgi+two-workers", **tw))
+    # slow uploads through the real socket (the body arrives in two pieces) of files that are stored byte for byte
+    out.append(Config(front="aio", backend="tree", prefix="/", features={"slow-body"}, names={"cal": ["n.txt", "a.ics"], "ab": [], "c2": []}, bodies={"cal": ["TXT", "TXT2", "X"], "ab": [], "c2": []},
+                      props={}, oracles={"C01"}, label="tree/aio+slow-body"))
     # member names the store uses for itself
     out.append(Config(front="wsgi", backend="tree" if tier == "quick" else "bare", prefix="/", features={"restart"}, names={"cal": ["a.ics", ".xandikos"], "ab": [".xandikos"], "c2": []},
                       bodies={"cal": ["X", "CFG"], "ab": ["CFG", "K"], "c2": []}, props=props, oracles={"C01"}, label="%s/wsgi+reserved-names" % ("tree" if tier == "quick" else "bare")))
@@ -43,7 +47,7 @@ def run(tier, workers=None):
     def seeds(cfg):
         if isinstance(cfg, e1common.StoreCfg):
             return [[("put", "a.ics", "X", None), ("put", "b.ics", "Z", None), ("delete", "a.ics", None)]]
-        if "two-workers" in cfg.features or "reserved-names" in cfg.label:
+        if "two-workers" in cfg.features or "reserved-names" in cfg.label or "slow-body" in cfg.features:
             return []
         hs = [[("mkcalendar", "c2"), ("put", "c2", "a.ics", "X")], [("put", "cal", "a.ics", "X"), ("put", "cal", "b.ics", "Z"), ("delete", "cal", "a.ics")],
               [("put", "cal", "a.ics", "X"), ("restart",), ("put", "cal", "a.ics", "X2")]]
